@@ -86,7 +86,10 @@ impl SbSys {
                 B::Acked => 'A',
             })
             .collect();
-        format!("[{}] frames={:?} last_acked={:?}", s, self.frames, self.last_acked)
+        format!(
+            "[{}] frames={:?} last_acked={:?}",
+            s, self.frames, self.last_acked
+        )
     }
 
     fn take_part(&mut self, i: usize, p: Part) -> (u64, u64) {
@@ -109,25 +112,37 @@ impl SbSys {
         if self.real.offset() != written {
             return Some((
                 "send_buffer:offset-mismatch".into(),
-                format!("offset() = {}, bytes written = {written}", self.real.offset()),
+                format!(
+                    "offset() = {}, bytes written = {written}",
+                    self.real.offset()
+                ),
             ));
         }
         if self.real.unacked() != unacked {
             return Some((
                 "send_buffer:unacked-mismatch".into(),
-                format!("unacked() = {}, written and not acknowledged = {unacked}", self.real.unacked()),
+                format!(
+                    "unacked() = {}, written and not acknowledged = {unacked}",
+                    self.real.unacked()
+                ),
             ));
         }
         if self.real.is_fully_acked() != (unacked == 0) {
             return Some((
                 "send_buffer:is-fully-acked-mismatch".into(),
-                format!("is_fully_acked() = {}, unacknowledged bytes = {unacked}", self.real.is_fully_acked()),
+                format!(
+                    "is_fully_acked() = {}, unacknowledged bytes = {unacked}",
+                    self.real.is_fully_acked()
+                ),
             ));
         }
         if self.real.has_unsent_data() != pending {
             return Some((
                 "send_buffer:has-unsent-data-mismatch".into(),
-                format!("has_unsent_data() = {}, model pending = {pending}", self.real.has_unsent_data()),
+                format!(
+                    "has_unsent_data() = {}, model pending = {pending}",
+                    self.real.has_unsent_data()
+                ),
             ));
         }
         None
@@ -146,7 +161,11 @@ impl SbSys {
             );
         }
         if s == e {
-            if let Some(o) = self.st.iter().position(|&b| b == B::Unsent || b == B::Queued) {
+            if let Some(o) = self
+                .st
+                .iter()
+                .position(|&b| b == B::Unsent || b == B::Queued)
+            {
                 return StepOut::bad(
                     real,
                     self.model_str(),
@@ -163,7 +182,11 @@ impl SbSys {
                 real,
                 self.model_str(),
                 "send_buffer:exceeds-budget",
-                format!("{} data + {off_sz} offset + {} length bytes > max_len {max}", e - s, if enc { 8 } else { 0 }),
+                format!(
+                    "{} data + {off_sz} offset + {} length bytes > max_len {max}",
+                    e - s,
+                    if enc { 8 } else { 0 }
+                ),
             );
         }
         if !enc && (e - s) + off_sz != max as u64 {
@@ -171,7 +194,10 @@ impl SbSys {
                 real,
                 self.model_str(),
                 "send_buffer:length-omitted-without-filling",
-                format!("length omitted but {} data + {off_sz} offset bytes != max_len {max}", e - s),
+                format!(
+                    "length omitted but {} data + {off_sz} offset bytes != max_len {max}",
+                    e - s
+                ),
             );
         }
         // the data handed to the packet builder
@@ -269,7 +295,8 @@ impl Sys for SbSys {
                 let at = self.st.len() as u64;
                 let data: Vec<u8> = (at..at + n as u64).map(pattern).collect();
                 self.real.write(Bytes::from(data));
-                self.st.extend(std::iter::repeat(B::Unsent).take(n as usize));
+                self.st
+                    .extend(std::iter::repeat(B::Unsent).take(n as usize));
                 StepOut::ok("()", self.model_str())
             }
             SOp::Poll(max) => self.poll(max),
